@@ -1,7 +1,7 @@
 /-
 C01 — SubsetCardinalityFormula(B, equalities) on an arbitrary bipartite graph object.
 -/
-import Lemmas.FamGraphInv
+import Lemmas.C01GraphInv
 import CnfgenModel.Fam.SubsetCard
 namespace Cnfgen.C01
 open Cnfgen Cnfgen.Fam
